@@ -24,7 +24,7 @@ def check(run):
     run.regenerate()
     run.lean_props(common.modules_for("C13"))
     from .. import glue_modes
-    glue_modes.corr(run, quick)   # Lean model of Modes (constructor, layout, dispatch, conj pairing, product terms, copies) vs the real class
+    run.attempt("corr:glue_modes.corr", glue_modes.corr, run, quick)   # Lean model of Modes (constructor, layout, dispatch, conj pairing, product terms, copies) vs the real class
     rng = run.rng
     Rs = [helpers.random_rotor(rng) for _ in range(3)] + [(1.0, 0.0, 0.0, 0.0), (0.0, 0.6, 0.8, 0.0)]
 
@@ -129,6 +129,23 @@ def check(run):
                     run.gap_case("norm", (s, La, la, nname), nname)
                     if r is not None and not np.allclose(np.asarray(r), np.sqrt(np.sum(np.abs(f.ndarray) ** 2, axis=-1)), rtol=1e-13, atol=0):
                         run.violation("norm-wrong", nname, inp, "sqrt(sum |f_lm|^2)", "differs")
+    # norm / conjugation must act on the function also when the data were supplied from an ell_min below |s|
+    for s_ in (-4, -2, 2, 3):
+        for emin in range(1, abs(s_)):
+            L = abs(s_) + 2
+            n = (L + 1) ** 2 - emin ** 2
+            data = np.array([complex(rng.gauss(0, 1), rng.gauss(0, 1)) for _ in range(n)])
+            inp_ = {"s": s_, "ell_min": emin, "ell_max": L}
+            try:
+                f = spherical.Modes(data.copy(), spin_weight=s_, ell_min=emin, ell_max=L)
+                want = np.sqrt(np.sum(np.abs(data[s_ ** 2 - emin ** 2:]) ** 2))
+                run.gap_case("norm", (s_, emin, "low-ell_min"), "ell_min<|s|")
+                if not np.isclose(float(f.norm()), want, rtol=1e-13) or not np.isclose(float(np.absolute(f)), want, rtol=1e-13):
+                    run.violation("norm-wrong", "f.norm()", inp_, "L2 norm of the function (modes below |s| do not exist)", float(f.norm()))
+                if not np.array_equal(f.bar.bar.ndarray, f.ndarray) or not np.isclose(float(f.bar.norm()), want, rtol=1e-13):
+                    run.violation("conjugate-not-involution", "f.bar.bar", inp_, "conj(conj(f)) = f, same norm", "differs")
+            except Exception as e:
+                run.violation("operation-raised", "Modes(ell_min<|s|).norm()", inp_, "norm", repr(e))
     # rejections
     f0, f1 = helpers.make_modes(rng, 0, 3), helpers.make_modes(rng, 1, 3)
     must_raise = [("f(s=0)+f(s=1)", lambda: f0 + f1), ("f(s=0)-f(s=1)", lambda: f0 - f1), ("np.add mismatched spins", lambda: np.add(f0, f1)), ("f.add mismatched", lambda: f0.add(f1)),
